@@ -163,24 +163,15 @@ func (vt *Model) ich(ps int) {
 	col := vt.cursor.col
 	row := vt.cursor.row
 	line := vt.activeScreen[row]
-	for i := vt.margin.right; i > col; i -= 1 {
-		if (i - column(ps)) < 0 {
-			continue
-		}
+	for i := vt.margin.right; i >= col+column(ps); i -= 1 {
 		line[i] = line[i-column(ps)]
 	}
 	for i := 0; i < ps; i += 1 {
-		if int(col)+i >= (vt.width() - 1) {
+		if col+column(i) > vt.margin.right {
 			break
 		}
-		line[col+column(i)] = cell{
-			Cell: vaxis.Cell{
-				Character: vaxis.Character{
-					Grapheme: " ",
-					Width:    1,
-				},
-			},
-		}
+		line[col+column(i)] = cell{}
+		line[col+column(i)].erase(vt.cursor.Style.Background)
 	}
 }
 
